@@ -13,5 +13,7 @@ theorem verdict : (classify Generated.factsC16).Sound (Holds (cfgOf Generated.fa
 #print axioms inv_step
 #print axioms destroy_loses_acked_write
 #print axioms idle_close_loses_acked_write
+#print axioms stale_unmap_loses_acked_write
+#print axioms pending_step
 
 end Hv.C16
